@@ -242,10 +242,10 @@ func VP_C11_AcknowledgedChangeNeverUndone() {
 func VP_C11_LinearizableRuns() {
 	s, st, _, _ := vpAgent(1, "")
 	k1, k2 := vpChoose("client1", 5), vpChoose("client2", 5)
-	if vpTier() == 1 {
-		// thorough: additionally one preemption at any channel operation; the two clients are
-		// symmetric, so unordered pairs suffice
-		vpAssume(k1 <= k2)
+	fine := vpTier() == 1 && ((k1 == 0 && k2 == 1) || (k1 == 1 && k2 == 2) || (k1 == 1 && k2 == 4))
+	if fine {
+		// thorough: for login/update, update/remove and update/failed-login additionally one
+		// preemption at any channel operation
 		vpSchedExploreFine(1)
 	} else {
 		vpSchedExplore(true)
